@@ -1102,6 +1102,10 @@ class Normalizer:
             return P_atom(A("getitem", wrap(pb), fi))
         if op == "store":
             base, idx, val = a
+            if _term_full_slice(idx) and isinstance(val, Term) and val.op in ("where3", "emin", "emax") and base in val.args:
+                # b[:] = where(c, x, b) / minimum(b, x): an elementwise update of b itself has b's shape, so every
+                # entry is overwritten and the result is that value
+                return self.nf(val)
             # a region written twice keeps the second value: (A with [i] = v1) with [i] = v2  is  A with [i] = v2
             while isinstance(base, Term) and base.op == "store" and len(base.args) == 3 and base.args[1] == idx:
                 base = base.args[0]
@@ -1181,6 +1185,13 @@ class Normalizer:
             return P_atom(A("lse", A("joined", *parts)), scalar=True)
         if op == "sorted" and len(a) == 1:
             return self.nf(Term("sort", a[0]))  # the sorted values (as a list or as an array)
+        if op == "where3" and len(a) == 3 and isinstance(a[0], Term) and a[0].op in ("lt", "le", "gt", "ge") and len(a[0].args) == 2 and {a[1], a[2]} == set(a[0].args) and a[1] != a[2]:
+            # where(p < q, p, q) is the elementwise minimum (where(p < q, q, p) the maximum)
+            p_, q_ = a[0].args
+            smaller_first = a[0].op in ("lt", "le")
+            picks_first = a[1] == p_
+            name_ = "emin" if smaller_first == picks_first else "emax"
+            return self.nf(Term(name_, *sorted([p_, q_], key=repr)))
         if op == "where3" and len(a) == 3:
             # inside the branch taken where c holds, a nested where(c, p, q) is p (and q in the other branch)
             c_ = a[0]
